@@ -64,8 +64,9 @@ class Scheduler:
         self.externals[label] = fn
 
     def enabled(self):
-        # after a stop only the consumer's own steps ('pull#k') stay enabled, never the executor's outstanding awaitables
-        out = [('gate', l) for l, f in self.gates.items() if not f.done() and (not self.freeze_gates or l.startswith('pull#'))]
+        # after a stop only the consumer's own steps ('pull#k') and the closing of sources (part of stopping) stay enabled,
+        # never the executor's outstanding awaitables
+        out = [('gate', l) for l, f in self.gates.items() if not f.done() and (not self.freeze_gates or l.startswith('pull#') or l.endswith('@aclose'))]
         out += [('ext', l) for l in self.externals]
         return out
 
